@@ -53,10 +53,13 @@ UNITS = [
              requires=["cursor_ok(self)"],
              ensures=[("cursor-invariant-kept", "cursor_ok(self)"), ("non-negative", "result is None or result >= 0"),
                       ("cursor-never-moves-back", "pos(self) >= old(pos(self))")],
-             modifies=SELF_MOD, assumed=True,
-             justification="reads a maximal run of str.isdigit() characters and converts it with int(): non-negative; "
-                           "moves the cursor by the number of digits (loop with break over a symbolic range: not "
-                           "yet under contract)"),
+             modifies=SELF_MOD, args={"self": cursor_builder("self")},
+             loops={1: Loop(invariants=[
+                 ("only-digits-accumulated", "forall(0, len(accumulator), lambda j: accumulator[j].isdecimal())"),
+                 ("accumulator-within-the-value",
+                  "len(accumulator) == _i")],
+                 modifies=["accumulator"])},
+             replay="native.c16:replay_parse"),
     Contract(f"{P}:Cursor.try_spaces_or_tabs", ["C16", "C01"], specs=S,
              args={"self": cursor_builder("self")},
              requires=["cursor_ok(self)"],
